@@ -86,6 +86,25 @@ pub fn directed() -> Vec<(String, &'static str, Vec<Op>)> {
             Op::Update { table: "T".into(), sets: vec![("V".into(), V::s(""))], cond: None },
         ],
     ));
+    // strings whose UTF-8 length and encoded length lie on different sides of the 64 KiB escape
+    for (name, page, ch, n) in [("long-e-acute-cp1252", 1252, "é", 40_000usize), ("long-e-acute-cp1252-exact", 1252, "é", 65_535), ("long-kanji-cp932", 932, "漢", 30_000), ("long-kanji-utf8", 65001, "漢", 21_845)] {
+        out.push((
+            name.into(),
+            "Installer",
+            vec![
+                Op::SetDbCodepage(page),
+                create("T", &kv),
+                ins("T", vec![vec![V::Int(1), V::Str(ch.repeat(n))], vec![V::Int(2), V::s("t0x2 after the long one")]]),
+                create("Later", &kv),
+                ins("Later", vec![vec![V::Int(1), V::s("t0x3 z")]]),
+            ],
+        ));
+    }
+    // columns one and two characters wide
+    {
+        let narrow = vec![ColDef::new("K", CT::Int16).key(), ColDef::new("F", CT::Str(1)).nullable(), ColDef::new("G", CT::Str(2)).nullable(), ColDef::new("H", CT::Str(1)).key()];
+        out.push(("narrow-string-columns".into(), "Installer", vec![create("Narrow", &narrow), ins("Narrow", vec![vec![V::Int(1), V::s("Y"), V::s("ab"), V::s("k")], vec![V::Int(2), V::Null, V::s("é"), V::s("é")]])]));
+    }
     // the widest table the library accepts
     {
         let wide: Vec<ColDef> = (0..32).map(|i| if i == 0 { ColDef::new("K", CT::Int16).key() } else if i % 2 == 0 { ColDef::new(&format!("S{}", i), CT::Str(0)).nullable() } else { ColDef::new(&format!("N{}", i), CT::Int32).nullable() }).collect();
